@@ -10,7 +10,10 @@ SPEC = {'level': 'exploration',
                 rule='attacker-encoded compact block announcements vs the genuine block; non-trivial = FillBlock reached with an attacker-chosen tx in play, '
                      'or OK reconstruction from >= 2 sources'),
             gen('vh_c38', 'up_partially_downloaded_block', 8000, 150000, min_cases_quick=2500,
-                rule='upstream fuzz target partially_downloaded_block (mocked mutation check; supplementary)')]}
+                rule='upstream fuzz target partially_downloaded_block (mocked mutation check; supplementary)'),
+        # coverage-guided libFuzzer campaign on the same target (thorough tier only; fz tree = g++ trace-pc + covshim)
+        fuzz('vh_c38', 'c38_cmpct', 300, max_len=700),
+    ]}
 
 META = {'level_text': 'Generated compact-block announcements of a harness-built block (1-200 txs, segwit and not) encoded by an attacker (substituted/twin/swapped/'
                'dropped/appended/tail-duplicated transaction lists, short ids of other pool transactions, duplicated short ids, wrong nonce, prefilled index '
